@@ -134,6 +134,8 @@ class Explorer:
         if rt == z3.sat and rf == z3.sat:
             self.pending.append(self.decisions + [False])
             d = True
+            if PROFILE_FORKS:
+                _note_site("fork")
         elif rt == z3.sat:
             d = True
         elif rf == z3.sat:
@@ -156,6 +158,8 @@ class Explorer:
         r = self.check()
         if r != z3.sat:
             raise SxAbort("infeasible") if r == z3.unsat else SxUnsupported("unknown")
+        if PROFILE_FORKS:
+            _note_site("pick")
         m = self.solver.model()
         v = m.eval(x.ext(x.w), model_completion=True).as_signed_long()
         self.decisions.append(("v", v))
@@ -234,11 +238,34 @@ def lift(x):
     return None
 
 
+PROFILE_FORKS = bool(__import__("os").environ.get("SX_PROFILE_FORKS"))
+FORK_SITES = {}
+
+
+def _note_site(kind):
+    """Debug aid (SX_PROFILE_FORKS=1): count forks per source line of the code under analysis."""
+    import sys
+    f = sys._getframe(2)
+    while f is not None and "/verif/sx/" in f.f_code.co_filename:
+        f = f.f_back
+    key = f"{kind} {f.f_code.co_filename}:{f.f_lineno} {f.f_code.co_name}" if f else kind
+    FORK_SITES[key] = FORK_SITES.get(key, 0) + 1
+    if sum(FORK_SITES.values()) % 500 == 0:
+        top = sorted(FORK_SITES.items(), key=lambda kv: -kv[1])[:8]
+        print("FORK-SITES", top, file=sys.stderr, flush=True)
+
+
 class SymBool:
     __slots__ = ("e",)
 
     def __init__(self, e):
         self.e = e
+
+    def __copy__(self):
+        return self
+
+    def __deepcopy__(self, memo):    # a value, as bool is
+        return self
 
     def __bool__(self):
         return CUR.branch(self.e)
@@ -371,6 +398,12 @@ class SymInt:
         self.hi = hi
         self.prov = None    # (table, index term) when this value is table[index] for a concrete table: lets a later look-up keyed by it be fused
         self.dom = dom      # optional finite set of possible values (table look-ups): lets comparisons with constants be decided without the solver
+
+    def __copy__(self):
+        return self
+
+    def __deepcopy__(self, memo):    # a value, as int is
+        return self
 
     @property
     def __class__(self):
